@@ -36,8 +36,13 @@ def _limits_case(spec):
     res = {'violations': [], 'counters': {'limit_cases': 1}}
     try:
         paths = cv.write_case(case, wd)
+        import time
+        t0 = time.time()
         base, _ = cvmon.execute(case, wd, paths, out='base.fasta', timeout_seconds=180)
         base = {s for _, s in base}
+        if time.time() - t0 > 15:
+            # an unlimited run this slow would be repeated nine more times: skipped (budget, not a verdict)
+            return {'nontrivial': False, 'violations': [], 'counters': {'limit_cases': 1, 'limit_case_too_slow': 1}}
         res['nontrivial'] = bool(base)
         n_less = 0
         lim0 = cv.limits_of(case.cfg)
